@@ -200,6 +200,7 @@ type RunCtx struct {
 	inIniRead bool
 	reentered int
 	compDepth int
+	nested    *Built // the parser a re-entering command uses for its own arguments
 	held      []heldSlice
 	bytesSeen int64 // bytes of input the boot has taken in so far (argv, INI text, stored values)
 	b         *Built
@@ -229,9 +230,6 @@ var execHashes *[]uint64
 // recordRuns, when non-nil (replay mode), collects every execution a judge
 // performs so that the replay can print the full event traces.
 var obsHashOnly bool
-
-// nested: the parser a re-entering command uses for its own arguments.
-var nested *Built
 
 var recordRuns *[]RunRecord
 
@@ -324,14 +322,16 @@ func (c *RunCtx) callee(kind, who string, args []string) error {
 	if kind == "execute" && c.sc.Decl != nil && c.sc.Decl.Reenter && len(args) > 0 {
 		// a command that parses the arguments it was given with a parser of its own
 		// (sudo-, exec-, help-like commands)
-		if nested == nil {
+		if c.nested == nil {
+			// (one per execution: a parser kept for the life of the process would make
+			// the steps taken depend on which scenario came first)
 			if db := Build(decoySpec()); db.P != nil && db.Err == nil {
 				db.P.Options |= flags.IgnoreUnknown
-				nested = db
+				c.nested = db
 			}
 		}
-		if nested != nil {
-			nested.P.ParseArgs(args)
+		if c.nested != nil {
+			c.nested.P.ParseArgs(args)
 		}
 	}
 	// programs commonly call back into the parser from a command or callback
